@@ -18,6 +18,7 @@ R = str(fw.REPO)
 TARGETS = {
     "kida": {"file": f"{R}/tests/data/minimal.kida", "format": "kida"},
     "krome": {"file": f"{R}/tests/data/primordial.krome", "format": "krome"},
+    "krome+commons": {"file": str(fw.VERIF / "harness" / "data" / "commons.krome"), "format": "krome"},
     "leeds+hh93": {"file": f"{R}/tests/data/minimal.leeds", "format": "leeds", "grain_model": "hh93", "method": "sparse"},
     "ucl+rr07": {"file": f"{R}/tests/data/minimal.ucl", "format": "uclchem", "grain_model": "rr07", "solver": "odeint", "method": "rosenbrock4"},
     "api": {"binding": {"#CO": 1150.0}, "reactions": [[["H", "H"], ["H2"]], [["H2", "CO"], ["H", "H", "CO"]], [["C", "O"], ["CO"]], [["H+", "e-"], ["H"]], [["He+", "E"], ["He"]],
@@ -53,7 +54,7 @@ def run(res, info):
                 "descriptions relying on the default lists (known finding); histories of up to 4 constructions for the global-table model")
     res.assumptions = ["dates and project version are masked", "exploration, not proof, for everything CPython's hashing decides"]
     seeds = [0, 1, 12345] + ([rng.randrange(1 << 30)] if res.tier == "thorough" else [])
-    names = list(TARGETS) if res.tier == "thorough" else ["kida", "leeds+hh93", "api", "krome"]
+    names = list(TARGETS) if res.tier == "thorough" else ["kida", "leeds+hh93", "api", "krome+commons"]
     for name in names:
         desc = dict(TARGETS[name], **EXPLICIT)
         case = {"kind": "c17", "target": name}
